@@ -43,6 +43,13 @@ Round 4:
                               tuple subclass whose `__new__` needs other than one argument and that defines none of
                               `__reduce__`, `__reduce_ex__`, `__getnewargs__`, `__getnewargs_ex__`, `__deepcopy__`
                               (copy / deepcopy / pickle rebuild a tuple subclass as `cls.__new__(cls, <tuple>)`).
+Round 5:
+* `DENM_REQ_SNAPSHOT`         how `DENMTransmissionManagement.request_denm_sending` hands the request's event position to
+                              the repetition thread it starts: 2 = a DEEP copy (`copy.deepcopy(<request>.event_position)`
+                              / `deepcopy(...)`, or a deep copy of the whole request), 1 = a SHALLOW copy (`dict(...)`,
+                              `copy.copy(...)`, `<pos>.copy()`, `{**<pos>}`: the nested altitude / confidence-ellipse records
+                              stay the caller's objects), 0 = the caller's dictionary itself.  Names of the parameter and
+                              of locals are not significant; any other shape is a generator failure.
 """
 from __future__ import annotations
 
@@ -58,6 +65,7 @@ VAM_TM = "facilities/vru_awareness_service/vam_transmission_management.py"
 VAM_RX = "facilities/vru_awareness_service/vam_reception_management.py"
 VRU_CL = "facilities/vru_awareness_service/vru_clustering.py"
 EVA = "applications/road_hazard_signalling_service/emergency_vehicle_approaching_service.py"
+DENM_TM = "facilities/decentralized_environmental_notification_service/denm_transmission_management.py"
 
 OPS = {"Lt": 0, "LtE": 1, "Gt": 2, "GtE": 3}
 
@@ -560,6 +568,102 @@ def choice_deepcopyable():
     return bool(takes_one)
 
 
+def _call_name(c):
+    """`copy.deepcopy(x)` -> 'deepcopy', `dict(x)` -> 'dict', `x.copy()` -> '.copy' (method of a non-module value)"""
+    f = c.func
+    if isinstance(f, ast.Name):
+        return f.id
+    if isinstance(f, ast.Attribute):
+        if isinstance(f.value, ast.Name) and f.value.id in ("copy", "dataclasses"):
+            return f.attr
+        return "." + f.attr
+    return "?"
+
+
+def denm_request_snapshot():
+    """copy level (0 alias / 1 shallow / 2 deep) of the event position inside the request that
+    `request_denm_sending` passes to the thread it starts (round 5)"""
+    fn = _func(ast.parse(src(DENM_TM)), "DENMTransmissionManagement", "request_denm_sending")
+    params = [a.arg for a in fn.args.args]
+    if len(params) != 2:
+        raise ValueError("request_denm_sending: expected (self, request)")
+    env = {params[1]: ("req", 0)}
+
+    def ev(node):
+        """-> ('req', level) | ('pos', level): level = how far the position is detached from the caller's objects"""
+        if isinstance(node, ast.Name):
+            if node.id in env:
+                return env[node.id]
+            raise ValueError(f"request_denm_sending: unknown name `{node.id}`")
+        if isinstance(node, ast.Attribute) and node.attr == "event_position":
+            k, lvl = ev(node.value)
+            if k != "req":
+                raise ValueError("request_denm_sending: event_position of a non-request")
+            return ("pos", lvl)
+        if isinstance(node, ast.Dict) and len(node.keys) == 1 and node.keys[0] is None:      # {**pos}
+            k, lvl = ev(node.values[0])
+            if k == "pos":
+                return ("pos", max(lvl, 1))
+        if isinstance(node, ast.Call):
+            name = _call_name(node)
+            if name == "deepcopy" and len(node.args) >= 1:
+                k, _ = ev(node.args[0])
+                return (k, 2)
+            if name in ("dict", "copy") and len(node.args) == 1 and not node.keywords:
+                k, lvl = ev(node.args[0])
+                return (k, max(lvl, 1)) if k == "pos" else (k, lvl)       # a shallow copy of the request shares its position
+            if name == ".copy" and not node.args:
+                k, lvl = ev(node.func.value)
+                if k == "pos":
+                    return ("pos", max(lvl, 1))
+            if name == "replace" and len(node.args) == 1:
+                k, lvl = ev(node.args[0])
+                if k != "req":
+                    raise ValueError("request_denm_sending: replace() of a non-request")
+                for kw in node.keywords:
+                    if kw.arg == "event_position":
+                        k2, lvl2 = ev(kw.value)
+                        if k2 != "pos":
+                            raise ValueError("request_denm_sending: event_position= is not a position")
+                        return ("req", lvl2)
+                    if kw.arg is None:
+                        raise ValueError("request_denm_sending: replace(**...)")
+                return ("req", lvl)
+        raise ValueError(f"request_denm_sending: unrecognised expression `{ast.unparse(node)}`")
+
+    def is_thread(n):
+        return isinstance(n, ast.Call) and (
+            (isinstance(n.func, ast.Attribute) and n.func.attr in ("Thread", "Timer"))
+            or (isinstance(n.func, ast.Name) and n.func.id in ("Thread", "Timer")))
+
+    level = None
+    for st in fn.body:
+        if isinstance(st, ast.Expr) and isinstance(st.value, ast.Constant):
+            continue                                                             # docstring
+        for n in ast.walk(st):
+            if is_thread(n):
+                args = [kw.value for kw in n.keywords if kw.arg == "args"]
+                if len(args) != 1 or not isinstance(args[0], (ast.List, ast.Tuple)) or len(args[0].elts) != 1:
+                    raise ValueError("request_denm_sending: thread arguments not a one-element list")
+                k, lvl = ev(args[0].elts[0])
+                if k != "req":
+                    raise ValueError("request_denm_sending: the thread is not handed a request")
+                level = lvl if level is None else min(level, lvl)
+        if isinstance(st, ast.Assign) and len(st.targets) == 1 and isinstance(st.targets[0], ast.Name):
+            if is_thread(st.value):
+                env.pop(st.targets[0].id, None)             # `t = threading.Thread(...)`
+                continue
+            try:
+                env[st.targets[0].id] = ev(st.value)
+            except ValueError:
+                if any(isinstance(n, ast.Name) and n.id in env for n in ast.walk(st.value)):
+                    raise                                   # an expression over the request we cannot classify
+                env.pop(st.targets[0].id, None)
+    if level is None:
+        raise ValueError("request_denm_sending: no thread started with the request")
+    return level
+
+
 def vehicle_role_enum():
     import gen_fac
     return gen_fac.parse_enum(gen_fac.asn1_texts()["Cam"], "VehicleRole")
@@ -605,5 +709,7 @@ def gen_fac_c11():
     body += "/-- round 4: the VAM between construction and BTP -/\n"
     body += f"def VAM_LDM_SNAPSHOT_DEEP : Nat := {deep}\ndef VAM_LDM_FEED_GUARDED : Nat := {guarded}\ndef VAM_LDM_BEFORE_BTP : Nat := {before}\n"
     body += f"def CHOICE_DEEPCOPYABLE : Bool := {'true' if choice_deepcopyable() else 'false'}\n"
+    body += "/-- round 5: copy level of the event position `request_denm_sending` hands to the repetition thread (2 deep, 1 shallow, 0 alias) -/\n"
+    body += f"def DENM_REQ_SNAPSHOT : Nat := {denm_request_snapshot()}\n"
     body += "end Generated.Fac11\n"
     write_if_changed("FacC11.lean", body)
